@@ -72,10 +72,7 @@ class Config(CIBaseModel):
         global _config
         if _config is not None:
             raise RuntimeError('Config has already been initialized.')
-        try:
-            self._normalize_path()
-        finally:
-            _config = self
+        self._normalize_path()
 
         return self
 
@@ -99,6 +96,18 @@ class Config(CIBaseModel):
                 'weather_data_dir',
                 Path(self.file_location(self.weather.weather_data_dir)).resolve(),
             )
+        return self
+
+    @model_validator(mode='after')
+    def register_singleton(self):
+        """Publish the global configuration singleton. This must be the last
+        validator so that a load that fails for any reason leaves the system
+        unconfigured."""
+
+        global _config
+        if _config is not None:
+            raise RuntimeError('Config has already been initialized.')
+        _config = self
         return self
 
     def file_location(self, f: Path | str) -> Path:
